@@ -281,8 +281,51 @@ pub fn run(tier: &str) -> i32 {
             acc.violate(&format!("merge-differs:{}:{}", class, if structured { "structured" } else { "plain" }), format!("{}: verdicts {:?} exit {} but the merged document gives {:?} exit {}", label, st, o.status(), bst, bo.status()), replay(format!("{:?} exit {}", st, o.status())));
         }
     }, Acc::merge);
-    rep.states = res.done as u64;
-    rep.transitions = res.done as u64;
+    // ---- a value means in a parameter file what it means in a data file: YAML scalars in every spelling, typed by the rules;
+    //      the parameter file's keys in the data file instead (the union document written in the same spelling) give the same verdicts
+    let mut res = res;
+    let mut yn = 0u64;
+    {
+        let spell = ["1", "1.5", "1e3", "\"1\"", "true", "True", "TRUE", "null", "~", "Null", "0x10", "0o17", "012", "1_000", ".5", "+1", "yes", "on", ".inf", "-.inf", ".nan", "2001-01-01", "[1, True]", "{k: 0x10}", "'12'", "|-\n    12", ">-\n    true"];
+        let probes = "rule t_str { P is_string }\nrule t_int { P is_int }\nrule t_float { P is_float }\nrule t_bool { P is_bool }\nrule t_null { P is_null }\nrule t_list { P is_list }\nrule t_map { P is_struct }\nrule v1 { P == 1 }\nrule v16 { P == 16 or P.k == 16 }\nrule vt { P == true or some P[*] == true }\n";
+        let rp = put("c17y/r.guard", probes);
+        for sp in spell {
+            let param = format!("P: {}\n", sp);
+            let data = "a: 1\n";
+            let union = format!("a: 1\nP: {}\n", sp);
+            let union2 = format!("P: {}\na: 1\n", sp);
+            let pp = put("c17y/p.yaml", &param);
+            let dp = put("c17y/d.yaml", data);
+            let up = put("c17y/u.yaml", &union);
+            let up2 = put("c17y/u2.yaml", &union2);
+            for mode in ["plain", "structured"] {
+                let extra = if mode == "plain" { sv(&["-S", "all"]) } else { sv(&["--structured", "-o", "json", "-S", "none"]) };
+                let run = |args: Vec<String>| {
+                    let mut a = sv(&["validate", "-r", &rp]);
+                    a.extend(args);
+                    a.extend(extra.clone());
+                    let o = cli_inproc(&a, "");
+                    let st = if mode == "plain" { statuses_plain(&o.out) } else { statuses_structured(&o.out).unwrap_or_default() };
+                    (st, o.status(), a)
+                };
+                let (ms, mc, margv) = run(vec!["-d".into(), dp.clone(), "-i".into(), pp.clone()]);
+                let (us, uc, _) = run(vec!["-d".into(), up.clone()]);
+                let (us2, uc2, _) = run(vec!["-d".into(), up2.clone()]);
+                yn += 3;
+                res.acc.traces += 3;
+                *res.acc.outcomes.entry(format!("yaml-param-exit-{}", mc)).or_insert(0) += 1;
+                if (us, uc) != (us2.clone(), uc2) {
+                    continue; // the union document itself depends on key order: nothing to compare with
+                }
+                if (ms.clone(), mc) != (us2.clone(), uc2) {
+                    res.acc.violate(&format!("merge-differs:yaml-scalar-typing:{}", mode), format!("parameter file `{}` with data `{}`: verdicts {:?} exit {}; the union document gives {:?} exit {}", param.trim(), data.trim(), ms, mc, us2, uc2), json!({"kind":"cli","argv":margv,"stdin":"","files":{"rules":probes,"data":data,"params":[param],"union":union},"expected":format!("{:?} exit {}", us2, uc2),"observed":format!("{:?} exit {}", ms, mc)}));
+                }
+            }
+        }
+    }
+    rep.extra.insert("yaml_scalar_parameter_runs".into(), json!(yn));
+    rep.states = res.done as u64 + yn;
+    rep.transitions = res.done as u64 + yn;
     if res.capped {
         rep.caps_hit.push(format!("wall-clock cap: {} of {} states", res.done, n));
     }
